@@ -260,9 +260,22 @@ class BaseVersion(object):
         # type: (Any) -> bool
         return self._compare(other) > 0
 
+    @staticmethod
+    def _hash_key_part(part):
+        # type: (Optional[str]) -> Tuple[Any, ...]
+        # Versions that compare equal must hash equal: numeric runs are
+        # compared as integers and a missing trailing number counts as zero.
+        chunks = [int(chunk) if chunk[0] in "0123456789" else chunk
+                  for chunk in re.findall(r"[0-9]+|[^0-9]+", part or "0")]
+        if chunks and chunks[-1] == 0:
+            chunks.pop()
+        return tuple(chunks)
+
     def __hash__(self):
         # type: () -> int
-        return hash(str(self))
+        return hash((int(self.epoch or "0"),
+                     self._hash_key_part(self.upstream_version),
+                     self._hash_key_part(self.debian_revision)))
 
 
 class AptPkgVersion(BaseVersion):
